@@ -139,6 +139,7 @@ func init() {
 		fmt.Fprintf(&e.out, "def metricRebuildsFromPods : Bool := %v\n", rebuilds)
 
 		c08ConcFacts(e, la, text)
+		c08FwFacts(e, la, text)
 		// the priority bands getPriorityClassByPriority compares with (Model/C08Glue.lean classByPriority)
 		for _, n := range []string{"PriorityProdValueMax", "PriorityProdValueMin", "PriorityMidValueMax", "PriorityMidValueMin",
 			"PriorityBatchValueMax", "PriorityBatchValueMin", "PriorityFreeValueMax", "PriorityFreeValueMin"} {
@@ -329,4 +330,78 @@ func max64(a, b int64) int64 {
 		return a
 	}
 	return b
+}
+
+// C08 framework shape (Model/C08Fw.lean):
+//   * (status expression, guard) of every `return` of Plugin.PreFilter: the model's preFilter answers Success on every
+//     path, so every status must be `nil` - except a Skip returned under the plain guard isDaemonSetPod(pod.OwnerReferences),
+//     the one Skip that cannot change any node's verdict (Props/C08.lean daemonset_skip_is_safe / skip_safe_only_for_daemonset),
+//   * the functions of the package that call generateUsageThresholdsFilterProfile (the node's usage-thresholds
+//     annotation is merged in by Filter alone - the reason why a Skip from PreFilter is unsafe).
+func c08FwFacts(e *ext, la string, text func(ast.Node) string) {
+	pre := e.funcDecl(la, "Plugin", "PreFilter")
+	rets := []string{} // (status expression, guard) per return; guard "" = unconditional, "?" = not a plain top-level `if cond { … return }`
+	if pre == nil || pre.Body == nil {
+		e.fail("Plugin.PreFilter not found")
+	} else {
+		collect := func(n ast.Node, guard string) {
+			ast.Inspect(n, func(n ast.Node) bool {
+				if _, ok := n.(*ast.FuncLit); ok {
+					return false
+				}
+				if r, ok := n.(*ast.ReturnStmt); ok {
+					st := "?" + fmt.Sprint(len(r.Results))
+					if len(r.Results) == 2 {
+						st = text(r.Results[1])
+					}
+					rets = append(rets, fmt.Sprintf("(%s, %s)", leanStr(st), leanStr(guard)))
+				}
+				return true
+			})
+		}
+		for _, st := range pre.Body.List {
+			switch x := st.(type) {
+			case *ast.ReturnStmt:
+				collect(x, "")
+			case *ast.IfStmt:
+				plain := x.Init == nil && x.Else == nil
+				for _, b := range x.Body.List {
+					if _, ok := b.(*ast.ReturnStmt); !ok {
+						plain = false
+					}
+				}
+				if plain {
+					collect(x.Body, text(x.Cond))
+				} else {
+					collect(x, "?")
+				}
+			default:
+				collect(x, "?")
+			}
+		}
+	}
+	fmt.Fprintf(&e.out, "def preFilterReturns : List (String × String) := [%s]\n", strings.Join(rets, ", "))
+	callers := map[string]bool{}
+	for _, f := range e.dir(la) {
+		for _, d := range f.Decls {
+			fd, ok := d.(*ast.FuncDecl)
+			if !ok || fd.Body == nil {
+				continue
+			}
+			ast.Inspect(fd.Body, func(n ast.Node) bool {
+				if c, ok := n.(*ast.CallExpr); ok {
+					if sel, ok := c.Fun.(*ast.SelectorExpr); ok && sel.Sel.Name == "generateUsageThresholdsFilterProfile" {
+						callers[fd.Name.Name] = true
+					}
+				}
+				return true
+			})
+		}
+	}
+	cs := []string{}
+	for c := range callers {
+		cs = append(cs, leanStr(c))
+	}
+	sort.Strings(cs)
+	fmt.Fprintf(&e.out, "def customThresholdsCallers : List String := [%s]\n", strings.Join(cs, ", "))
 }
